@@ -40,7 +40,7 @@ func largeClouds(c *run.Ctx) (res run.Result) {
 		version := uint32(1 + (c.Case+k)%2)
 		deg := uint8((c.Case + 3*k) % 4)
 		level := largeGz[(c.Case/2+k)%len(largeGz)]
-		s := splatref.RandomSPZ(r, version, n, deg, uint8(r.Intn(24)), uint8(r.Intn(2)), true)
+		s := splatref.RandomSPZ(r, version, n, deg, drawFractionalBits(r), uint8(r.Intn(2)), true)
 		data := s.Gzip(level)
 		if checkSPZ(c, &res, s, data, level, "") {
 			res.Count("large/spz_points_compared", int64(n))
@@ -55,7 +55,7 @@ func largeClouds(c *run.Ctx) (res run.Result) {
 		}
 		// splat PLY export
 		rest := []int{0, 9}[(c.Case+k)%2]
-		pc := genPlyCloud(r, n, rest, (c.Case/2+k)%2 == 0, []string{"unit", "f64", "mixed"}[r.Intn(3)])
+		pc := genPlyCloud(r, n, contig(rest), (c.Case/2+k)%2 == 0, []string{"unit", "f64", "mixed"}[r.Intn(3)])
 		before = len(res.Violations)
 		checkSplatPly(c, &res, pc, "")
 		if len(res.Violations) == before {
